@@ -75,7 +75,9 @@ def dex_model(draw):
             usedf.add((name, t))
             fields.append((name, t, draw(st.booleans())))
         classes.append((cname, methods, fields))
-    return {'collide': collide, 'classes': classes}
+    # blind: nothing is queried before or between the operations (members are still unloaded when renamed);
+    # names are only observed once, after the whole history
+    return {'collide': collide, 'classes': classes, 'blind': draw(st.integers(0, 3)) == 0}
 
 
 def op_strategy():
@@ -120,7 +122,8 @@ def build_dex(model):
         sf = [G.Field(n, t, 0x9) for (n, t, static) in fields if static]
         inf = [G.Field(n, t, 0x1) for (n, t, static) in fields if not static]
         classes.append(G.Class(cname, 0x1, 'Ljava/lang/Object;', sfields=sf, ifields=inf, vmethods=vm))
-    return G.DexFile(classes).build()
+    df = G.DexFile(classes)
+    return df.build(), df
 
 
 # ---------------------------------------------------------------------------------- execution
@@ -130,7 +133,8 @@ def _desc(proto):
 
 def run_history(ctx, model, history, record=True):
     from androguard.core import dex
-    data = build_dex(model)
+    data, df = build_dex(model)
+    blind = bool(model.get('blind'))
     case = {'model': model, 'history': [list(o) for o in history]}
     try:
         d = dex.DEX(data)
@@ -144,12 +148,25 @@ def run_history(ctx, model, history, record=True):
         for (cname, methods, fields) in model['classes']:
             c = d.get_class(cname)
             H.append({'kind': 'class', 'obj': c, 'orig': cname, 'id': 'class %s' % cname})
-            ems = {(m.get_name(), m.get_descriptor()): m for m in c.get_methods()}
+            ci = [k for k, cc in enumerate(df.classes) if cc.name == cname][0]
+            if blind:
+                # by position: class_data lists the virtual methods in ascending method-index order, which the writer
+                # knows (member_order); no name is asked for, so the members stay unloaded
+                order = [(mm.name, (mm.ret, tuple(mm.params))) for mm in df.member_order[ci]['vmethods']]
+                lst = list(c.get_methods())
+                ems = {(n, _desc(p)): lst[k] for k, (n, p) in enumerate(order)} if len(lst) == len(order) else {}
+            else:
+                ems = {(m.get_name(), m.get_descriptor()): m for m in c.get_methods()}
             for (name, proto, consts) in methods:
                 m = ems[(name, _desc(proto))]
                 H.append({'kind': 'method', 'obj': m, 'orig': name, 'consts': list(consts),
                           'id': 'method %s->%s%s' % (cname, name, _desc(proto))})
-            efs = {(f.get_name(), f.get_descriptor()): f for f in c.get_fields()}
+            if blind:
+                forder = [(ff.name, ff.type) for ff in df.member_order[ci]['sfields'] + df.member_order[ci]['ifields']]
+                flst = list(c.get_fields())
+                efs = {k2: flst[k] for k, k2 in enumerate(forder)} if len(flst) == len(forder) else {}
+            else:
+                efs = {(f.get_name(), f.get_descriptor()): f for f in c.get_fields()}
             for (name, t, static) in fields:
                 H.append({'kind': 'field', 'obj': efs[(name, t)], 'orig': name, 'id': 'field %s->%s:%s' % (cname, name, t)})
     except Exception:
@@ -215,7 +232,7 @@ def run_history(ctx, model, history, record=True):
                         ctx.count('known_shape_mismatches_skipped')
         return False
 
-    bad = observe(0)
+    bad = False if blind else observe(0)
     step = 0
     for op in history:
         if bad:
@@ -256,11 +273,14 @@ def run_history(ctx, model, history, record=True):
             ctx.fail('exception:%s' % kind, dict(case, step=step), traceback.format_exc())
             bad = True
             break
+        if not blind:
+            bad = observe(step)
+    if blind and not bad:
         bad = observe(step)
     if record:
         nt = nren >= 2 and reload_after_rename and (shared_rename or not model['collide'])
         ctx.case(nontrivial=nt, key=repr((model, history)),
-                 labels=['regime:collide' if model['collide'] else 'regime:unique', 'renames:%d' % min(nren, 5),
+                 labels=['regime:collide' if model['collide'] else 'regime:unique', 'blind' if blind else 'observed-every-step', 'renames:%d' % min(nren, 5),
                          'reload-after-rename' if reload_after_rename else 'no-reload-after-rename'] +
                         (['shared-rename'] if shared_rename else []),
                  sample={'classes': model['classes'], 'history': [list(o) for o in history][:8]})
@@ -280,7 +300,7 @@ def run_shard(ctx, shard):
 
 
 def _tuplify(model):
-    return {'collide': model['collide'],
+    return {'collide': model['collide'], 'blind': bool(model.get('blind')),
             'classes': [(c[0], [(m[0], (m[1][0], tuple(m[1][1])), list(m[2])) for m in c[1]],
                          [tuple(f) for f in c[2]]) for c in model['classes']]}
 
